@@ -15,6 +15,22 @@ func (m *Machine) prepareCall(fr *frame, c *ssa.CallCommon) (Val, []Val) {
 		if recv.T == nil {
 			m.rtPanic("method call on nil interface value (" + c.Method.Name() + ")")
 		}
+		if recv.T == reflectTypeMarker {
+			if c.Method.Name() != "Name" {
+				m.unmodelled("reflect.Type.%s", c.Method.Name())
+			}
+			// reflect.TypeOf(x).Name(): the name of a defined type, "" otherwise
+			inner := recv.V.(Iface)
+			name := ""
+			if inner.T != nil {
+				if nt, ok := inner.T.(*types.Named); ok {
+					name = nt.Obj().Name()
+				} else if bt, ok := inner.T.(*types.Basic); ok {
+					name = bt.Name()
+				}
+			}
+			return preResult{mkStr(name)}, nil
+		}
 		f := m.prog.lookupMethod(recv.T, c.Method)
 		if f == nil {
 			m.unmodelled("no method %s for dynamic type %s", c.Method.Name(), recv.T)
@@ -29,6 +45,9 @@ func (m *Machine) prepareCall(fr *frame, c *ssa.CallCommon) (Val, []Val) {
 	}
 	return fn, args
 }
+
+// preResult is a callee whose result has already been computed by a model.
+type preResult struct{ v Val }
 
 func (m *Machine) doCall(fr *frame, c *ssa.CallCommon, site ssa.Instruction) Val {
 	fn, args := m.prepareCall(fr, c)
